@@ -223,6 +223,9 @@ SILENT = [
            more=[(EP, "def _parse(description):\n", "def _store(pieces, args, kw):\n    if len(pieces) == 1:\n        args.append(pieces[0])\n    else:\n        kw[nativeString(pieces[0])] = pieces[1]\n\n\ndef _parse(description):\n")]),
     Silent("tokenizer-operators-as-tuple", EP, "    ops = colon + equals\n    nextOps = {colon: colon + equals, equals: colon}\n", "    ops = (colon, equals)\n    nextOps = {colon: (colon, equals), equals: (colon,)}\n",
            more=[(EP, "        if n in iterbytes(ops):\n", "        if n in ops:\n")]),
+    Silent("quote-table-at-module-level", EP, _Q, "    for c in _SPECIALS:\n        argument = argument.replace(c, _ESC + c)\n",
+           more=[(EP, "def quoteStringArgument(argument):\n", "_ESC = \"\\\\\"\n_SPECIALS = (_ESC, \":\", \"=\")\n\n\ndef quoteStringArgument(argument):\n")]),
+    Silent("tokenizer-stepped-with-sentinel", EP, "    for n in iterdesc:\n        if n in iterbytes(ops):\n", "    done = object()\n    while True:\n        n = next(iterdesc, done)\n        if n is done:\n            break\n        if n in iterbytes(ops):\n"),
     Silent("tokenizer-membership-spelling", EP, "        if n in iterbytes(ops):\n", "        if n in ops:\n"),
     Silent("parse-tuple-concat", EP, "            sofar += (value,)\n", "            sofar = sofar + (value,)\n"),
 ]
